@@ -86,7 +86,7 @@ class FastRational
     uword den{1};
     mutable mpq_ptr mpq{nullptr};
 
-    inline static mpqPool pool;
+    inline static thread_local mpqPool pool; // per thread: solver instances in different threads must not share it
     inline static thread_local mpz_class temp;
     inline static mpz_ptr mpz() { return temp.get_mpz_t(); }
 
